@@ -266,6 +266,8 @@ def rsched_replay(binary, path):
                 args.append("--stateful")
             if "spurious=1" in line:
                 args.append("--spurious-cas")
+            if "postpoints=1" in line:
+                args.append("--post-points")
             m = re.search(r"budget=(\d+)", line)
             if m:
                 args += ["--budget", m.group(1)]
